@@ -2,6 +2,7 @@ package checks
 
 import (
 	"fmt"
+	"math"
 	"sort"
 	"strconv"
 	"strings"
@@ -52,7 +53,7 @@ var c11Receivers = map[model.Kind][]model.Value{
 		model.Arr(model.Int(5), model.Int(4), model.Int(3), model.Int(2), model.Int(1)),
 	},
 	model.KInt:   {model.Int(0), model.Int(7), model.Int(-7), model.Int(10), model.Int(-100), model.Int(1234567890123), model.Int(9223372036854775807), model.Int(-9223372036854775807 - 1)},
-	model.KFloat: {model.Float(0), model.Float(0.5), model.Float(-0.5), model.Float(1.5), model.Float(2.5), model.Float(-2.5), model.Float(2.4999), model.Float(-7.99), model.Float(1e6 + 0.25), model.Float(0.49999999999999994), model.Float(-1.5), model.Float(3.0)},
+	model.KFloat: {model.Float(0), model.Float(math.Copysign(0, -1)), model.Float(0.5), model.Float(-0.5), model.Float(1.5), model.Float(2.5), model.Float(-2.5), model.Float(2.4999), model.Float(-7.99), model.Float(1e6 + 0.25), model.Float(0.49999999999999994), model.Float(-1.5), model.Float(3.0)},
 	model.KBool:  {model.Bool(true), model.Bool(false)},
 }
 
